@@ -81,12 +81,21 @@ Proof. vm_compute. reflexivity. Qed.
 Example lzma2_roundtrip_preset_hyps :
   let p := [1; 2; 3] in let data := [3; 97] in
   let evs := [L2Sym (SLit 3); L2Sym (SLit 97); L2Lzma 2 7] in
-  p <> [] /\ zlen p <= 4096 /\ zlen p < l2_window_size 4096 /\ bytes_ok p = true /\ bytes_ok data = true /\
+  p <> [] /\ (zlen p <= 4096 \/ l2_window_size 4096 = 4096) /\ bytes_ok p = true /\ bytes_ok data = true /\
   l2_no_end evs /\
   lzma2_write 3 0 2 4096 (Some p) data evs = Ok [192; 0; 1; 0; 6; 93; 0; 1; 153; 61; 240; 0; 0; 0] /\
   l2_run 3 0 2 4096 (Some p) data evs [1] = Ok (data, 0).
 Proof.
-  cbv zeta. split; [discriminate|]. split; [vm_compute; discriminate|]. split; [vm_compute; reflexivity|].
+  cbv zeta. split; [discriminate|]. split; [right; vm_compute; reflexivity|].
   split; [reflexivity|]. split; [reflexivity|]. split; [|split; vm_compute; reflexivity].
   intros ev Hin. cbn [In] in Hin. repeat (destruct Hin as [<- | Hin]; [discriminate|]). contradiction.
 Qed.
+
+(* a preset longer than the dictionary: the window starts full, the first loop iteration of the
+   reader only wraps the write position; the first symbol copies the oldest bytes of the window *)
+Definition ex_big_preset : list Z := map (fun i => i mod 251) (ProbProofs.zrange 0 4100).
+
+Example lzma2_roundtrip_full_preset_eval :
+  l2_run 3 0 2 4096 (Some ex_big_preset) [4; 5; 6; 7] [L2Sym (SMatch 4095 3); L2Sym (SLit 7); L2Lzma 4 8] [3; 1]
+  = Ok ([4; 5; 6; 7], 0).
+Proof. vm_compute. reflexivity. Qed.
